@@ -14,7 +14,8 @@ EXPLANATION = (
     "latency_rate > 0 — with both rates 0 nothing is drawn, slept or injected; the injector decides by "
     "roll < rate; (LATENCY) the sleep lasts from_millis(x) with x = random_range(min_ms..=max_ms) under "
     "max_ms > min_ms, else min_ms, where min_ms/max_ms are as_millis() of the configured bounds; (CONFIG) "
-    "builder methods carry the seed, rates and bounds through.")
+    "builder methods carry the seed, rates and bounds through."
+    ' (NO-PANIC-ARITH) no panicking Instant/Duration operator on configured latencies.')
 RULE = "one obligation per random-draw site, per generator construction, per wrapped-call site, per guard, per builder field"
 TRUSTED = ["rand::StdRng (deterministic for a seed)", "std::sync::Mutex", "tokio::time::sleep"]
 ASSUMPTIONS = ["min_latency <= max_latency for the range clause"]
